@@ -83,7 +83,7 @@ _SAFE_BUILTINS: dict[str, Callable] = {
     "len": len, "range": range, "str": str, "int": int, "bool": bool, "tuple": tuple, "list": list,
     "set": set, "frozenset": frozenset, "sorted": sorted, "max": max, "min": min, "abs": abs, "all": all,
     "any": any, "sum": sum, "enumerate": enumerate, "zip": zip, "reversed": reversed, "dict": dict, "map": map, "filter": filter,
-    "repr": repr, "float": float,
+    "repr": repr, "float": float, "slice": slice,
 }
 _SAFE_METHODS = {
     str: {"upper", "lower", "startswith", "endswith", "strip", "lstrip", "rstrip", "split", "join", "replace",
@@ -198,6 +198,14 @@ class Evaluator:
         for op, c in zip(n.ops, n.comparators):
             right = self.ev(c, env)
             t = type(op)
+            if t in (ast.Eq, ast.NotEq) and (type(left).__name__ == "Arr" or type(right).__name__ == "Arr") and len(n.ops) == 1:
+                # numpy semantics inside the evaluated code: == / != on an abstract array is elementwise
+                arr, other = (left, right) if type(left).__name__ == "Arr" else (right, left)
+                try:
+                    m_ = arr.eq_elementwise(other)
+                except ValueError as e:
+                    raise EvalRaised("ValueError", str(e))
+                return m_ if t is ast.Eq else ~m_
             try:
                 r = {ast.Eq: lambda: left == right, ast.NotEq: lambda: left != right, ast.Lt: lambda: left < right,
                      ast.LtE: lambda: left <= right, ast.Gt: lambda: left > right, ast.GtE: lambda: left >= right,
